@@ -226,8 +226,10 @@ impl Iterator for SimIter<'_> {
             if self.fused {
                 return None;
             }
-            // a non-fused iterator may yield again after None; the model stops at the first None
-            return Some(Bit::One);
+            // a non-fused iterator may yield again after None; the model stops at the first None.
+            // Bounded: one more item, then None for good (an unbounded one would hang any consumer
+            // that keeps polling, which is not a property violation but a harness problem)
+            return if self.polled_after_end == 1 { Some(Bit::One) } else { None };
         }
         if let Some(k) = self.panic_after {
             if self.pos >= k {
